@@ -74,10 +74,30 @@ pub fn part<E: Encodable>(name: &'static str, e: &E) -> Part {
     let steps = [sio::WStep::Accept(1); 0];
     let mut w = sio::ScriptedWriter::new(&steps, e.encode_len().saturating_add(bytes.len()));
     w.one_byte = true;
-    let chunked = match e.encode(&mut w) {
+    let mut chunked = match e.encode(&mut w) {
         Ok(()) => Ok(w.out),
         Err(e) => Err(format!("{:?}", e)),
     };
+    // and through sinks that accept 1, 2, 3 or 5 bytes per call, with and without their own vectored writes
+    if chunked.is_ok() && bytes.len() <= 70_000 {
+        for (k, vectored) in [(1usize, true), (2, false), (2, true), (3, false), (3, true), (5, true)] {
+            let st: Vec<sio::WStep> = (0..bytes.len() / k + 4).map(|_| sio::WStep::Accept(k)).collect();
+            let mut v = sio::ScriptedWriter::new(&st, e.encode_len().saturating_add(bytes.len()));
+            v.vectored = vectored;
+            match e.encode(&mut v) {
+                Ok(()) => {
+                    if v.out != bytes {
+                        chunked = Err(format!("a sink accepting {} byte(s) per call (vectored writes: {}) received {} bytes instead of {}", k, vectored, v.out.len(), bytes.len()));
+                        break;
+                    }
+                }
+                Err(er) => {
+                    chunked = Err(format!("sink accepting {} byte(s) per call (vectored: {}): {:?}", k, vectored, er));
+                    break;
+                }
+            }
+        }
+    }
     Part { name, reported: e.encode_len(), bytes, chunked, result }
 }
 
@@ -479,7 +499,24 @@ pub fn dec_poll_scripted<F: Family>(
     fault: Option<(usize, io::ErrorKind)>,
     keep_log: bool,
 ) -> PollRun<F> {
+    dec_poll_styled::<F>(data, steps, drop_mask, fault, keep_log, 0)
+}
+
+/// like `dec_poll_scripted` with an explicit ReadBuf fill style of the transport (see sio::ScriptedReader)
+pub fn dec_poll_styled<F: Family>(
+    data: &[u8],
+    steps: &[Step],
+    drop_mask: u64,
+    fault: Option<(usize, io::ErrorKind)>,
+    keep_log: bool,
+    fill_style: u8,
+) -> PollRun<F> {
+    // bit 0: ReadBuf fill style; bit 1: when the future is re-created at a Pending, continue from a
+    // clone of the caller-held state (the original is dropped)
+    let clone_state = fill_style & 2 != 0;
+    let fill_style = fill_style & 1;
     let mut reader = ScriptedReader::new(data, steps);
+    reader.fill_style = fill_style;
     reader.fault = fault;
     reader.keep_log = keep_log;
     let pend = reader.pendings.clone();
@@ -489,6 +526,7 @@ pub fn dec_poll_scripted<F: Family>(
     let mut spurious = false;
     let mut polls = 0usize;
     let mut npend = 0u32;
+    let mut cloned_bytes = 0usize;
     let max_polls = data.len() + steps.len() + 32;
     let result = 'outer: loop {
         let mut fut = GenericPollPacket::new(&mut state, &mut reader);
@@ -507,6 +545,20 @@ pub fn dec_poll_scripted<F: Family>(
                     let bit = (drop_mask >> (npend % 64)) & 1;
                     npend += 1;
                     if bit == 1 {
+                        if clone_state {
+                            drop(fut);
+                            // a Body state owns a buffer as large as the declared remaining length (up to
+                            // 256 MiB): the copies of one run are bounded so that a run stays cheap
+                            let sz = match &state {
+                                GenericPollPacketState::Body(b) => b.buf.len(),
+                                _ => 0,
+                            };
+                            if cloned_bytes + sz <= (8 << 20) {
+                                cloned_bytes += sz;
+                                let copy = state.clone();
+                                state = copy;
+                            }
+                        }
                         continue 'outer; // drops `fut`, re-creates it from state + reader
                     }
                 }
